@@ -47,7 +47,7 @@ static tc_t T;
 static int heap_family_only = 0;
 static unsigned long long n_runs = 0, n_streams = 0, n_flushchecks = 0, n_calls = 0;
 
-typedef struct { char tr[4096]; size_t trn; char out[1024]; size_t outn; char rem[300]; size_t remn; char q[1024]; size_t qn; } obs_t;
+typedef struct { char tr[12288]; size_t trn; char out[1024]; size_t outn; char rem[300]; size_t remn; char q[1024]; size_t qn; } obs_t;
 
 static void finish_obs(obs_t * o) {
     char info[300];
@@ -141,6 +141,24 @@ static void check_flush(const char * s, int n) {
     }
 }
 
+/* a stream of several hundred bytes in an input buffer of 1024 and of 66000 bytes: fill levels beyond 8 bits, capacities beyond 16 bits.
+ * one byte per call against: all at once, every single cut, every uniform chunk size */
+static void check_long(const char * s, int n, size_t buflen) {
+    static obs_t ref, got;
+    static int cuts[2048];
+    int i, k;
+    char d1[400];
+    n_streams++;
+    for (i = 1; i < n; i++) cuts[i - 1] = i;
+    run_schedule(s, n, cuts, n - 1, buflen, &ref);
+#define TRYL(nc, what, arg) do { run_schedule(s, n, cuts, (nc), buflen, &got); if (!same_obs(&ref, &got)) { snprintf(d1, sizeof d1, what, arg); \
+        mc_viol("c08/chunking-changes-behaviour/long-stream", "stream of %d bytes [%s...] in a buffer of %d bytes, %s: trace [...%s] queue [%s] rest %d bytes; one byte per call: trace [...%s] queue [%s] rest %d bytes", n, mc_e(s, 40), (int) buflen, d1, \
+                mc_e(got.tr + (got.trn > 120 ? got.trn - 120 : 0), got.trn > 120 ? 120 : got.trn), mc_e(got.q, got.qn < 100 ? got.qn : 100), (int) got.remn, mc_e(ref.tr + (ref.trn > 120 ? ref.trn - 120 : 0), ref.trn > 120 ? 120 : ref.trn), mc_e(ref.q, ref.qn < 100 ? ref.qn : 100), (int) ref.remn); return; } } while (0)
+    TRYL(0, "delivered in %s call", "one");
+    for (i = 1; i < n; i++) { cuts[0] = i; TRYL(1, "cut once at byte %d", i); }
+    for (k = 2; k < n; k++) { int nc = 0; for (i = k; i < n; i += k) cuts[nc++] = i; TRYL(nc, "in chunks of %d bytes", k); }
+}
+
 int main(int argc, char ** argv) {
     int K, k, i, idx[6], t;
     char s[400];
@@ -169,6 +187,24 @@ int main(int argc, char ** argv) {
             }
             for (i = k - 1; i >= 0; i--) { if (++idx[i] < NMSG) break; idx[i] = 0; }
             if (i < 0) break;
+        }
+    }
+    if (!heap_family_only) {
+        static char ls[1200];
+        static const size_t lbuf[2] = {1024, 66000};
+        int n = 0, m = 0, bi, variant;
+        for (variant = 0; variant < 2; variant++) {
+            n = 0; m = variant;
+            while (n < (variant ? 760 : 504)) {         /* the messages of the alphabet in rotation, without the two whose quote spans a terminator */
+                int mi = m++ % NMSG;
+                if (mi == M_QUOTED_NL || mi == NMSG - 1) continue;
+                memcpy(ls + n, msgs[mi].p, msgs[mi].n); n += (int) msgs[mi].n;
+            }
+            for (bi = 0; bi < 2; bi++) {
+                if (!MC_CASE()) continue;
+                mc_case_tag = "long-stream"; mc_case_i[0] = n; mc_case_i[1] = (long long) lbuf[bi];
+                check_long(ls, n, lbuf[bi]);
+            }
         }
     }
 #if USE_DEVICE_DEPENDENT_ERROR_INFORMATION && !USE_MEMORY_ALLOCATION_FREE
